@@ -6,6 +6,7 @@ import (
 	"go/token"
 	"go/types"
 	"golang.org/x/tools/go/packages"
+	"sort"
 	"strconv"
 	"strings"
 
@@ -48,6 +49,56 @@ func C14bristol(p *load.Program, run *report.Run) {
 		}
 		return true
 	})
+	// the table form: String returns T[op] for a package-level table T keyed by the operation constants
+	tables := map[string]map[string]string{} // table name -> op const -> name
+	for _, f := range pkg.Syntax {
+		for _, d := range f.Decls {
+			gd, ok := d.(*ast.GenDecl)
+			if !ok || gd.Tok != token.VAR {
+				continue
+			}
+			for _, sp := range gd.Specs {
+				vs, ok := sp.(*ast.ValueSpec)
+				if !ok || len(vs.Names) != 1 || len(vs.Values) != 1 {
+					continue
+				}
+				cl, ok := vs.Values[0].(*ast.CompositeLit)
+				if !ok {
+					continue
+				}
+				t := map[string]string{}
+				for _, el := range cl.Elts {
+					kv, ok := el.(*ast.KeyValueExpr)
+					if !ok {
+						continue
+					}
+					if bl, ok := kv.Value.(*ast.BasicLit); ok && bl.Kind == token.STRING {
+						name, _ := strconv.Unquote(bl.Value)
+						t[types.ExprString(kv.Key)] = name
+					}
+				}
+				if len(t) > 0 {
+					tables[vs.Names[0].Name] = t
+				}
+			}
+		}
+	}
+	nameTable := ""
+	if len(printed) == 0 {
+		ast.Inspect(fdStr.Body, func(n ast.Node) bool {
+			if r, ok := n.(*ast.ReturnStmt); ok && len(r.Results) == 1 {
+				if ix, ok := r.Results[0].(*ast.IndexExpr); ok {
+					if t := tables[types.ExprString(ix.X)]; t != nil {
+						nameTable = types.ExprString(ix.X)
+						for k, v := range t {
+							printed[k] = v
+						}
+					}
+				}
+			}
+			return true
+		})
+	}
 	// names parsed and their arity in ParseBristol: case "XOR": op = XOR; numInputs = 2
 	parsed := map[string]string{}
 	arityPB := map[string]int64{}
@@ -79,6 +130,116 @@ func C14bristol(p *load.Program, run *report.Run) {
 		}
 		return true
 	})
+	// the lookup form: a helper of the package walks a range of operations and compares the table's name
+	// (for op := LO; op < HI; op++ { if T[op] == name { return op, true } }), or ranges over the table
+	defaultArity := int64(0)
+	if len(parsed) == 0 {
+		for _, f := range pkg.Syntax {
+			for _, d := range f.Decls {
+				hd, ok := d.(*ast.FuncDecl)
+				if !ok || hd.Body == nil || hd.Recv != nil {
+					continue
+				}
+				called := false
+				ast.Inspect(fdPB.Body, func(n ast.Node) bool {
+					if c, ok := n.(*ast.CallExpr); ok {
+						if id, ok := c.Fun.(*ast.Ident); ok && id.Name == hd.Name.Name {
+							called = true
+						}
+					}
+					return !called
+				})
+				if !called {
+					continue
+				}
+				ast.Inspect(hd.Body, func(n ast.Node) bool {
+					switch t := n.(type) {
+					case *ast.ForStmt:
+						as, ok1 := t.Init.(*ast.AssignStmt)
+						cond, ok2 := t.Cond.(*ast.BinaryExpr)
+						if !ok1 || !ok2 || len(as.Rhs) != 1 || (cond.Op != token.LSS && cond.Op != token.LEQ) {
+							return true
+						}
+						lo, okL := constOf(pkg, as.Rhs[0])
+						hi, okH := constOf(pkg, cond.Y)
+						if !okL || !okH {
+							return true
+						}
+						if cond.Op == token.LEQ {
+							hi++
+						}
+						// which table does the body compare with?
+						var tbl map[string]string
+						ast.Inspect(t.Body, func(m ast.Node) bool {
+							if ix, ok := m.(*ast.IndexExpr); ok && tbl == nil {
+								tbl = tables[types.ExprString(ix.X)]
+							}
+							return true
+						})
+						for opc, name := range tbl {
+							if v, ok := pkgConst(pkg, opc); ok && v >= lo && v < hi {
+								parsed[name] = opc
+							}
+						}
+					case *ast.RangeStmt:
+						if tbl := tables[types.ExprString(t.X)]; tbl != nil {
+							for opc, name := range tbl {
+								parsed[name] = opc
+							}
+						}
+					}
+					return true
+				})
+			}
+		}
+		// the arity: `numInputs := 2; if op == INV { numInputs = 1 }`
+		ast.Inspect(fdPB.Body, func(n ast.Node) bool {
+			switch t := n.(type) {
+			case *ast.AssignStmt:
+				if len(t.Lhs) == 1 && types.ExprString(t.Lhs[0]) == "numInputs" && t.Tok == token.DEFINE {
+					if k, ok := constOf(pkg, t.Rhs[0]); ok {
+						defaultArity = k
+					}
+				}
+			case *ast.IfStmt:
+				be, ok := t.Cond.(*ast.BinaryExpr)
+				if !ok || be.Op != token.EQL || types.ExprString(be.X) != "op" {
+					return true
+				}
+				for _, st := range t.Body.List {
+					if as, ok := st.(*ast.AssignStmt); ok && len(as.Lhs) == 1 && types.ExprString(as.Lhs[0]) == "numInputs" {
+						if k, ok := constOf(pkg, as.Rhs[0]); ok {
+							arityPB[types.ExprString(be.Y)] = k
+						}
+					}
+				}
+			}
+			return true
+		})
+		for _, op := range ops {
+			if _, ok := arityPB[op]; !ok && defaultArity > 0 {
+				arityPB[op] = defaultArity
+			}
+		}
+	}
+	_ = nameTable
+	// every name the reader accepts is the name of a gate operation
+	isOp := map[string]bool{}
+	for _, op := range ops {
+		isOp[op] = true
+	}
+	var foreign []string
+	for name, opc := range parsed {
+		if !isOp[opc] {
+			foreign = append(foreign, fmt.Sprintf("%q -> %s", name, opc))
+		}
+	}
+	sort.Strings(foreign)
+	if len(foreign) > 0 {
+		run.Violate("gate-name-roundtrip", "circuit.ParseBristol/accepted names", p.Rel(fdPB.Pos()), "the reader accepts a name that is not the name of a gate operation: "+strings.Join(foreign, ", ")+" — the parsed circuit has a gate no evaluator and no writer knows", nil)
+	} else {
+		run.OK("gate-name-roundtrip", "circuit.ParseBristol/accepted names", p.Rel(fdPB.Pos()), fmt.Sprintf("%d names, all of gate operations", len(parsed)))
+	}
 	for _, op := range ops {
 		run.Count("gate-operations", 1)
 		name, ok := printed[op]
